@@ -111,6 +111,9 @@ def run(tier, seed):
     rng = ctx.rng
     q = tier == "quick"
     ks = [1, 2, 3, 4, 5, 6, 8, 10, 14, 20, 30, 45, 60, 80] if q else list(range(1, 81))
+    for k_, par_, vals in [(1, 0, [0.3]), (1, 1, [0.3]), (1, 0, [-0.85]), (1, 1, [0.9]), (2, 0, [0.2, -0.4]), (2, 1, [0.2, -0.4]),
+                           (3, 0, [0.2, 0.1, 0.3]), (3, 1, [0.2, 0.1, 0.3])]:      # smallest sizes, both parities, library defaults
+        one(ctx, S, vals, par_, None, None)
     for k in range(1, 81):                 # every length of the property's range at least once
         for rep in range((5 if q else 6) if k in ks else 1):
             parity = int(rng.choice([0, 1]))
